@@ -13,7 +13,8 @@ PROPERTY = 'C14'
 RULE = ('Generated full sessions on dense markets: start anywhere 1995-2039 with time of day 00:00..14:30 (00:00, 14:30, '
         '09:00, arbitrary), end 23:59, 3-70 days incl. weekend-only ranges; every rebalance kind (buy-and-hold with a '
         '14:30 start); burn-in absent / before the start / exactly on a rebalance instant / one minute after one / '
-        'arbitrary / after the end; alpha fixed-weight or universe-driven behind a recording wrapper; static and '
+        'arbitrary / after the end; alpha fixed-weight, universe-driven, or cycling through 2-3 weight vectors (so that weights return to an '
+        'earlier vector), behind a recording wrapper; static and '
         'dynamic universes; both sizers; fees. Oracle: recorded alpha calls and allocation-row dates == [r in the '
         'documented schedule of the configured kind (independent calendar) if r is a clock instant and r >= burn-in]; every fill '
         'is at 14:30 on a weekday and not before the first such instant; equity timestamps == 21:00 of every '
@@ -135,7 +136,7 @@ def cases(draw):
         end = [d1.year, d1.month, d1.day, 23, 59, 0]
     names = draw(market.symbol_names(1, 4))
     mk = draw(market.dense_markets(names, d0, (d1 - d0).days))
-    cfg, lab = draw(sessgen.full_config(names, start, end, alpha_kinds=('fixed', 'single', 'single'), sched=sched,
+    cfg, lab = draw(sessgen.full_config(names, start, end, alpha_kinds=('fixed', 'single', 'single', 'cycle'), sched=sched,
                                         entry_kinds=('before', 'start', 'on', 'after1m', 'mid', 'after_end', 'none')))
     return {'cfg': cfg, 'market': mk, 'labels': lab}
 
